@@ -278,15 +278,18 @@ def check_fault(sch, layout, url, idx, fault, acc, mid, depth_of_resource):
 
 
 def decorate(lines):
-    """Blank and comment lines after every line that opens a section (they count as lines)."""
+    """Blank and comment lines after every line that opens a section (they count as lines), and
+    whitespace characters that are NOT line terminators for readline() (form feed, file separator,
+    NEL, U+2028) at line ends or alone on a line: only '\\n' ends a line of a resource."""
+    exotic = ["\x0c", "\x1c", "\x85", "\u2028", "\x0b"]
     out = []
     for i, l in enumerate(lines):
-        out.append(l)
+        out.append(l + (exotic[i % len(exotic)] if i % 3 == 1 else ""))
         s = l.strip()
         if s.startswith("<") and not s.startswith("</") and not s.endswith("/>"):
             out.append("" if i % 2 == 0 else "  # comment")
             if i % 2 == 0:
-                out.append("   ")
+                out.append("   " + exotic[(i // 2) % len(exotic)])
     return out
 
 
